@@ -7,6 +7,7 @@ R2  eq shape: NotImplemented for foreign types; BitLengthSet.__eq__ is a conjunc
     queries only; SerializableType.__eq__ tests the class relation in both directions.
 R3  immutability: no instance-attribute store / in-place mutation outside __init__ in model classes (memo slots excepted).
 R4  defensive copies: a public accessor never returns a mutable container attribute by reference.
+R6  no mutation through aliases of cached / shared sets in the bit-length-set solver (shared with C01.R2).
 R5  pickle-safety: instance attributes are never lambdas / local functions / generators / files / modules; no custom
     __reduce__ / __getstate__ / incomplete __slots__.
 """
@@ -237,5 +238,9 @@ def run(ctx: Ctx) -> None:
     rule_r3(ctx)
     rule_r4(ctx)
     rule_r5(ctx)
+    from . import c01
+
+    # immutability also fails through aliases: a memoised residue set handed out by reference and modified by the caller
+    c01.rule_r2(ctx, rid="C18.R6")
     ctx.analysed["model_classes"] = [c.short for c in model_classes(ctx)]
     ctx.undecided("pickling round trip as a run-time fact; reflexivity / symmetry beyond the shape checked by R2")
